@@ -653,9 +653,12 @@ class _RandomStub:
         raise Unsupported("np.random.randint under the symbolic shim")
 
     def shuffle(self, x):
-        perm = CTX.rng_perm(len(x)) if hasattr(CTX, "rng_perm") and CTX.rng_perm else list(range(len(x)))
+        perm = CTX.rng_perm(len(x)) if getattr(CTX, "rng_perm", None) else list(range(len(x)))
         self.draws.append(("shuffle", tuple(perm), None))
-        x[:] = x[list(perm)]
+        if isinstance(x, list):
+            x[:] = [x[i] for i in perm]
+        else:
+            x[:] = x[list(perm)]
 
     def permutation(self, x):
         n = x if isinstance(x, int) else len(x)
@@ -888,7 +891,10 @@ class _PlainRandom:
 
     def shuffle(self, x):
         perm = CTX.rng_perm(len(x)) if getattr(CTX, "rng_perm", None) else list(range(len(x)))
-        x[:] = x[list(perm)]
+        if isinstance(x, list):
+            x[:] = [x[i] for i in perm]
+        else:
+            x[:] = x[list(perm)]
 
     def permutation(self, x):
         n = x if isinstance(x, int) else len(x)
